@@ -415,11 +415,11 @@ fn strategy(tier: Tier) -> BoxedStrategy<Case> {
 }
 
 pub fn checks() -> Vec<Box<dyn DynCheck>> {
-    vec![Box::new(Random), Box::new(Seq), Box::new(super::extendpaths::DefaultCtors)]
+    vec![Box::new(Random), Box::new(Seq), Box::new(super::extendpaths::DefaultCtors), Box::new(super::giant::Giant)]
 }
 
 pub fn run(ctx: &Ctx) {
-    ctx.set_rule("(a) exhaustive: with the Ident hasher every insertion sequence over all 2^(q+r) fingerprint values up to a length bound, and every subset of classes in several orders followed by one more insert of every class; (b) generated: q in 1..=6 (8 thorough), r in {1..8,16,32,56, 62-q, 63-q, 64-q}, Ident/Sip/Mod/Mix hashers, universes of up to 1.5x capacity keys placed by (quotient, remainder) incl. ring-end quotients, insert histories up to 2x capacity. Oracle after every insert: result, len, is_empty and query of EVERY universe key (presence and absence) equal the behaviourally computed class-set model. Non-trivial: model holds >=3 classes with some run shifted from its canonical slot, or the table is full, or a cluster wraps past the last slot (exhaustive part: computed from the class set under Ident). Distinct = (q, r, ordered class sequence). default_constructors: QuotientFilter::with_params (no hasher argument) for q in 1..=8 and every r in 1..=64 - q against with_params_and_hash given BuildHasherDefault<DefaultHasher>: bits_quotient()/bits_remainder() echo the arguments and insert/len/query agree on up to 300 keys and 300 probes.");
+    ctx.set_rule("(a) exhaustive: with the Ident hasher every insertion sequence over all 2^(q+r) fingerprint values up to a length bound, and every subset of classes in several orders followed by one more insert of every class; (b) generated: q in 1..=6 (8 thorough), r in {1..8,16,32,56, 62-q, 63-q, 64-q}, Ident/Sip/Mod/Mix hashers, universes of up to 1.5x capacity keys placed by (quotient, remainder) incl. ring-end quotients, insert histories up to 2x capacity. Oracle after every insert: result, len, is_empty and query of EVERY universe key (presence and absence) equal the behaviourally computed class-set model. Non-trivial: model holds >=3 classes with some run shifted from its canonical slot, or the table is full, or a cluster wraps past the last slot (exhaustive part: computed from the class set under Ident). Distinct = (q, r, ordered class sequence). default_constructors: QuotientFilter::with_params (no hasher argument) for q in 1..=8 and every r in 1..=64 - q against with_params_and_hash given BuildHasherDefault<DefaultHasher>: bits_quotient()/bits_remainder() echo the arguments and insert/len/query agree on up to 300 keys and 300 probes. giant_tables: (q, r) in {(30,5), (31,2), (32,1), (33,1)} under the Ident hasher with classes at quotients 0, 5..7, 2^q/2 (-1), 2^31 (+-1), 2^32-1, 2^q-2, 2^q-1 (a run wrapping the ring end) and up to three remainders each: Ok(true)/Ok(false), len, no false negative, no never-inserted class reported.");
     ctx.assume("fingerprint classes computed behaviourally: x ~ y iff a fresh filter holding only x reports y (checked to be an equivalence)");
     ctx.run_regressions(&[&Random, &Seq]);
     let t = ctx.tier;
@@ -451,6 +451,7 @@ pub fn run(ctx: &Ctx) {
         ctx.require_class("random_history", "shifted_run", 0.2);
         // QuotientFilter::with_params (default hasher): getters and behaviour equal to with_params_and_hash
         ctx.run_random(&super::extendpaths::DefaultCtors, t.pick(3_000, 30_000), || super::extendpaths::default_ctor_strategy(&[7]));
+        ctx.run_fixed(&super::giant::Giant, super::giant::quotient_cases());
     }
     if ctx.tier == Tier::Thorough && !ctx.failed() {
         crate::engine::fuzz::run_filter_ops(ctx, 1, 160_000);
